@@ -92,6 +92,22 @@ func runUnsubAck(c UnsubAckCase) *ufailure {
 				break
 			}
 		}
+		// ... and let the broker deliver it (to the session that stays) before the UNSUBACK write
+		// returns: recipients are resolved when the message is written, not when it is accepted
+		if ok && matchesAny(c.Filters, c.Topic) {
+			for until := time.Now().Add(3 * time.Second); time.Now().Before(until); time.Sleep(200 * time.Microsecond) {
+				stayer.Pump()
+				got := false
+				for _, p := range stayer.Publishes() {
+					if p.Payload == "after-unsuback" {
+						got = true
+					}
+				}
+				if got {
+					break
+				}
+			}
+		}
 		done <- ok
 	})
 	leaver.Send(sim.EncUnsubscribe(9, gone))
